@@ -434,7 +434,8 @@ def c17_main():
     wc = []
     for ds, items in sorted(dss.items()):
         wc.append({"kind": "bw", "chroms": [40] * max(it[0] for it in items), "items": items, "vmap": "int", "scale": 1, "allq": 0, "zq": 0, "mz": [], "asq": "bed3", "long": 0,
-                   "opts": {"ips": 1, "bs": 2, "zooms": [], "zmode": "manual", "compress": 1, "inmem": 1, "rt": "current", "threads": 1, "pass": 1, "chan": 100},
+                   "opts": {"ips": 1, "bs": 2, "zooms": [], "zmode": "manual", "compress": 1, "inmem": 1, "rt": "current", "threads": 1, "pass": 1, "chan": 100,
+                            "sort": "all" if [it[0] for it in items] == sorted(it[0] for it in items) else "start"},
                    "dump": os.path.join(d, "ds%d.bw" % ds), "ds": ds})
     for o in run_harness("bbi", wc, run.wd, shards=1):
         if o["obs"].get("result") != "ok":
